@@ -127,3 +127,22 @@ func H_cookie_chain() {
 	}
 	verifReach("cookie-chain")
 }
+
+// C05: after any three move halves - matched, unmatched (moved in from an
+// unwatched place), repeated - every control call still returns.
+func H_ctl_after_moves() {
+	verifKReset()
+	w := verifNewInotify(0)
+	verifSetupTable(w, 2)
+	halves := [...]uint32{unix.IN_MOVED_FROM, unix.IN_MOVED_TO}
+	names := [...]string{"m0", "m1", "m2"}
+	for i := 0; i < 3; i++ {
+		m := halves[verifChoose("half", 2)]
+		_, ok := verifFeed(w, verifTable[0].wd, m, verifU32("cookie"), names[i])
+		verifAssert(ok, "the reader keeps running")
+	}
+	verifAssert(len(w.WatchList()) == 2, "WatchList returns")
+	_ = w.Remove("/t/a") // returns (EINVAL if the kernel already dropped the mark)
+	verifAssert(w.Close() == nil, "Close returns")
+	verifReach("ctl-after-moves")
+}
